@@ -257,7 +257,15 @@ def gen_edge(rng, n, tier):
     for _ in range(n):
         k = rng.random()
         if k < 0.5:
-            out.append({'kind': 'geo', 'g': rand_geo(rng, model=False), 'base': rand_geo(rng, model=False)})
+            g = rand_geo(rng, model=False); base = rand_geo(rng, model=False)
+            r = rng.random()
+            if r < 0.12:                            # the point above / below the base (a base taken from the first fix at ground level), or on its meridian / parallel
+                g = [base[0], base[1], rng.choice([0.0, 1035.0, -120.5, base[2] + 1.0])]
+            elif r < 0.18:
+                g = [base[0], g[1], g[2]]
+            elif r < 0.24:
+                g = [g[0], base[1], g[2]]
+            out.append({'kind': 'geo', 'g': g, 'base': base})
         elif k < 0.65:
             lon = rng.uniform(-5, 9.5); lat = rng.uniform(41.5, 51); h = rng.choice([0.0, rng.uniform(-100, 4800)])
             out.append({'kind': 'lambert', 'g': [lon, lat, h]})
